@@ -39,11 +39,23 @@ def _roundtrip(name, i):
     m = XMEMBERS[name][i]
     cls = ENUMS[name]
     tok = cls.to_xml(m)
+    # history independence: a lookup of the same token in another enumeration earlier in the process ('wave' is both a preset
+    # shape and a pattern; 'dash', 'dot', 'l', 'r', 'ctr', ... recur too) must not influence this one
+    for other in TOKEN_OWNERS.get(tok, ()):
+        if other is not cls:
+            other.from_xml(tok)
     return tok == m.xml_value and cls.from_xml(tok) is m and cls.to_xml(int(m)) == tok
 
 
+TOKEN_OWNERS = {}
+for _en, _ms in XMEMBERS.items():
+    for _m in _ms:
+        if ENUMS[_en] not in TOKEN_OWNERS.setdefault(_m.xml_value, []):
+            TOKEN_OWNERS[_m.xml_value].append(ENUMS[_en])
+
 _RT = '''
-@cond(timeout=300, encodes=ENC_ENUM, bound="every member of {name} that has an XML value ({n} members; symbolic member index)")
+@cond(timeout=300, encodes=ENC_ENUM, bound="every member of {name} that has an XML value ({n} members; symbolic member index), after a "
+      "lookup of the same token in every other enumeration that has it")
 def roundtrip_{name}(i: int) -> bool:
     """
     pre: 0 <= i < {n}
@@ -287,7 +299,8 @@ def _sptree():
                             "pptx.shapes.autoshape:AutoShapeType.__init__", "pptx.oxml.shapes.autoshape:CT_Shape.new_autoshape_sp",
                             "pptx.shapes.autoshape:AdjustmentCollection._initialized_adjustments"],
       bound="every auto-shape type with a prst token (symbolic member index; listed known findings excluded): add_shape then "
-            "auto_shape_type returns the same member, prst attribute equals its token, adjustments report the table defaults")
+            "auto_shape_type returns the same member, prst attribute equals its token, adjustments report the table defaults -- for a "
+            "second shape of the type added after a first one whose adjustments were all overridden")
 def add_shape_reads_back(i: int) -> bool:
     """
     pre: 0 <= i < len(SHAPE_MEMBERS)
@@ -298,6 +311,10 @@ def add_shape_reads_back(i: int) -> bool:
 
     m = SHAPE_MEMBERS[i]
     shapes = SlideShapes(_sptree(), None)
+    # an earlier shape of the same type whose adjustments were overridden must not influence the new one
+    first = shapes.add_shape(m, 0, 0, 914400, 914400)
+    for k in range(len(first.adjustments)):
+        first.adjustments[k] = 0.0625 + 0.03125 * k
     sh = shapes.add_shape(m, 0, 0, 914400, 914400)
     defaults = AutoShapeType.default_adjustment_values(m)
     adj = [sh.adjustments[k] for k in range(len(sh.adjustments))]
